@@ -192,28 +192,9 @@ def run(prog: Program, res: Result) -> None:  # noqa: PLR0912, PLR0915
         res.ok("C18.R3", f"{parser.file}:{pa.node.lineno} Parser", what, "declared difference only")
     else:
         res.fail("C18.R3", file=parser.file, line=pb.node.lineno, qualname="Parser.parse_block", construct=f"initial left_trim parse={ia} parse_block={ib}", message="the first text of a block does not take its left trim from the tag that opened the block", what=what)
-    # Content.parse exhaustive over markup classes
-    tokmod = prog.mod("liquid2/token.py")
-    markup_classes = {c.name for c in tokmod.classes.values() if any(isinstance(s, ast.AnnAssign) and isinstance(s.target, ast.Name) and s.target.id == "wc" for s in c.node.body)}
-    res.floor("C18.R3", "token classes with wc", len(markup_classes), 5)
-    cp = prog.cls("liquid2.builtin.content.Content").methods.get("parse")
-    if cp is None:
-        raise AnalysisError("Content.parse vanished")
-    covered: set[str] = set()
-    for n in ast.walk(cp.node):
-        if isinstance(n, ast.Call) and isinstance(n.func, ast.Name) and n.func.id == "isinstance" and len(n.args) == 2 and norm(n.args[0]) == "peeked":
-            covered |= {dotted(x) or "" for x in (n.args[1].elts if isinstance(n.args[1], ast.Tuple) else [n.args[1]])}
-    # subclasses are covered by their base
-    def base_covered(name: str) -> bool:
-        c = tokmod.classes.get(name)
-        return c is not None and any(k.name in covered for k in prog.mro(c))
+    from checks.shared import check_content_right_trim
 
-    missing = sorted(m for m in markup_classes if not base_covered(m))
-    what = "Content.parse takes right_trim = peeked.wc[0] for every markup token class"
-    if not missing and "right_trim = peeked.wc[0]" in norm(cp.node, 3000) and "stream.peek()" in norm(cp.node, 3000):
-        res.ok("C18.R3", f"{cp.file}:{cp.node.lineno} Content.parse", what, f"covers {sorted(covered)}")
-    else:
-        res.fail("C18.R3", file=cp.file, line=cp.node.lineno, qualname="Content.parse", construct=f"uncovered markup classes {missing}", message=f"text followed by {missing or 'markup'} does not take that markup's left marker as its right trim", what=what)
+    check_content_right_trim(prog, res, "C18.R3")
 
     # ------------------------------------------------------------------ R4 carry ownership
     res.rule("C18.R4", "in every Tag.parse, each parse_block is entered with the trim carry of the tag immediately before that block (at most one tag token consumed since the carry was set)")
@@ -267,6 +248,10 @@ def run(prog: Program, res: Result) -> None:  # noqa: PLR0912, PLR0915
     res.floor("C18.R1", "positional markers in token constructions", n_wc, 12)
 
     # ------------------------------------------------------------------ R6 token boundaries are markup boundaries
+    res.rule("C18.R7", "the trim mode and blank-block suppression in force are those of the Environment that renders: default_trim is applied when text is parsed and rendered through template.env, so a caching loader shared by two environments must hand a cached template only to the Environment it was parsed for - unconditionally, sync and async (shared with C14.R5 / C04.S5): otherwise an environment with no trimming in force reproduces text trimmed under another environment's default")
+    from checks.shared import check_cache_hit_environment
+
+    check_cache_hit_environment(prog, res, "C18.R7")
     res.rule("C18.R6", "no pattern of the lexer uses the `$` anchor (it also matches before a final newline): text is split into content tokens only at markup openers and at the absolute end of input (\\Z), so the whitespace a marker acts on never depends on a lexing artefact")
     import re._parser as _sp
 
